@@ -25,7 +25,7 @@ TRUSTED = ["threading.Condition is a monitor: the body of `with cond` runs in mu
            "concurrent.futures.ThreadPoolExecutor.shutdown(wait=True) joins all workers (library contract, trusted)",
            "thread-modular rely: other threads change the monitor state only through acquire/release, i.e. only by "
            "adding/removing their own reservations (each of these is proved to guarantee it)"]
-NOT_DECIDED = ["termination / liveness for every interleaving (argued from lock levels and notify_all obligations; no VC)",
+NOT_DECIDED = ["termination / liveness for every interleaving: deadlock freedom is argued from the lock-level obligations (every acquisition site respects callback < tensor < budget < leaf: discharged) and the notify_all obligations; progress of tofile() itself is not a VC",
                "byte-identity with the serial save for every interleaving: follows from L2 (pairwise disjoint ranges fixed "
                "before any worker starts, C07) and the commutation lemma below; the file system itself is trusted",
                "no schedules are explored"]
@@ -220,3 +220,26 @@ def build(eng, tier):
 
 
 ENGINE_CLASS = MonitorEngine
+
+
+_build_monitor = build
+
+
+def build(eng, tier):
+    _build_monitor(eng, tier)
+    # lock levels of the whole writer (serial driver, pooled workers, shard drivers): callback lock < per-tensor lock < byte
+    # budget (reservation or monitor) < leaf locks, one obligation per acquisition site, decided on the real source
+    import os
+    from pyvc import extract, lockorder
+    path = extract.module_path(ED)
+    seen = {}
+    for where, ok, detail in lockorder.check_module(path):
+        res = detail.split("while acquiring ")[1].split(" ")[0]
+        name = f"lock-order/{where}:{res}"
+        seen[name] = seen.get(name, 0) + 1
+        if seen[name] > 1:
+            name += f"#{seen[name]}"
+        eng.add_static(name, ok, detail, backend="lock-level analysis (syntactic, onnx_ir.external_data)")
+    eng.assumptions_used.add("lock-level analysis: resources are recognised by name (callback_lock, _tensor_write_locks, budget.acquire/release, "
+                             "self._condition, *_lock) and calls are resolved by name inside onnx_ir.external_data; work passed to "
+                             "executor.submit runs in another thread holding nothing")
